@@ -60,7 +60,7 @@ Definition enc_fheader_of (wlog : N) (cs ck nodid ml : bool) (pledged dictID : N
   enc_fheader {| fp_windowLog := wlog; fp_contentSize := cs; fp_checksum := ck; fp_noDictID := nodid; fp_magicless := ml |} pledged dictID.
 
 (* ---------- compressed blocks: re-encode the sequences bitstream (and raw / RLE literals sections) ---------- *)
-From ZV.Codec Require Import EncodeSeq.
+From ZV.Codec Require Import EncodeSeq EncodeHuf.
 
 (* the values of the sequences of a block, read like seq_loop reads them but without executing them *)
 Fixpoint seq_values (n : nat) (tll tof tml : fse_table) (stll stof stml : N) (s : list bool) (acc : list eseq) : res (list eseq) :=
@@ -94,7 +94,20 @@ Definition reencode_cblock (blockMax : N) (e : entropy) (payload : bytes) : res 
   let litsec := takeN lused payload in
   let lit_diff := if lmode =? 0 then first_diff (enc_lits_raw lits) litsec 0
                   else if lmode =? 1 then match lits with v :: _ => first_diff (enc_lits_rle v (lenN lits)) litsec 0 | [] => None end
-                  else None in
+                  else
+                    (* Huffman-compressed literals: re-encode the streams with the block's tree; the tree description is carried over *)
+                    let ltype := N.land lmode 3 in
+                    let sf := match litsec with b0 :: _ => N.land (N.shiftr b0 2) 3 | [] => 0 end in
+                    let lh := if sf <? 2 then 3 else if sf =? 2 then 4 else 5 in
+                    let body := skipN litsec lh in
+                    let treedesc := if ltype =? 2 then match read_huf_table LitHufLog body with Ok (_, used) => takeN used body | Err _ _ => [] end else [] in
+                    match huf' with
+                    | Some t => match enc_lits_huf ltype sf treedesc (h_tree t) lits with
+                                | Some sec => first_diff sec litsec 0
+                                | None => Some 0
+                                end
+                    | None => Some 0
+                    end in
   match lit_diff with
   | Some i => Ok (Some i)
   | None =>
